@@ -148,12 +148,16 @@ ConvTable == [
      st_ctime |-> "ctime", st_atime_nsec |-> "atimensec", st_mtime_nsec |-> "mtimensec", st_ctime_nsec |-> "ctimensec",
      st_mode |-> "mode", st_nlink |-> "zero", st_uid |-> "uid", st_gid |-> "gid", st_rdev |-> "zero", st_blksize |-> "zero",
      st_dev |-> "zero"],
+  EntryOutFromEntry |-> [nodeid |-> "inode", generation |-> "generation", entry_valid |-> "entry_timeout.secs", attr_valid |-> "attr_timeout.secs",
+     entry_valid_nsec |-> "entry_timeout.nanos", attr_valid_nsec |-> "attr_timeout.nanos", attr_flags |-> "attr_flags",
+     attr_ino |-> "attr.st_ino", attr_size |-> "attr.st_size"],
   KstatfsFromStatvfs |-> [blocks |-> "f_blocks", bfree |-> "f_bfree", bavail |-> "f_bavail", files |-> "f_files", ffree |-> "f_ffree",
      bsize |-> "f_bsize", namelen |-> "f_namemax", frsize |-> "f_frsize", padding |-> "zero"] ]
 ConvName == [x \in {"Attr::with_flags(stat64,flags)", "Attr::from(stat64)", "stat64::from(Attr)", "stat64::from(SetattrIn)",
-                    "Kstatfs::from(statvfs64)"} |->
+                    "EntryOut::from(Entry)", "Kstatfs::from(statvfs64)"} |->
    CASE x = "Attr::with_flags(stat64,flags)" -> "AttrWithFlags" [] x = "Attr::from(stat64)" -> "AttrFromStat"
      [] x = "stat64::from(Attr)" -> "StatFromAttr" [] x = "stat64::from(SetattrIn)" -> "StatFromSetattr"
+     [] x = "EntryOut::from(Entry)" -> "EntryOutFromEntry"
      [] OTHER -> "KstatfsFromStatvfs"]
 \* attr fields the wire carries must all be covered by the Attr conversions
 ASSUME DOMAIN ConvTable.AttrWithFlags = Fields("fuse_attr")
